@@ -15,14 +15,16 @@ def run(path, verbose=True):
         trace = concat_traces(outs, os.path.join(wd, "replay.trace.ndjson"))
         if verbose:
             for i, line in enumerate(open(trace)):
-                print("%4d %s" % (i + 1, line.rstrip()[:300]))
-        n, errs = validate_trace(r["monitor"], trace, wd)
+                if i < 400:
+                    print("%4d %s" % (i + 1, line.rstrip()[:300]))
+        monitor = r.get("monitor") or ("P_" + r["property"])
+        n, errs = validate_trace(monitor, trace, wd)
         for e in errs:
             print("REJECTED at line %s: %s" % (e["line"], e["err"]))
         if errs:
             print("VIOLATION property=%s replay=%s" % (r["property"], path))
             return 1
-        print("accepted by %s" % r["monitor"])
+        print("accepted by %s" % monitor)
         return 0
     if kind == "c13fn":      # a (table, list) case of the pure override function, judged by TLC (P_C13)
         import props.c13
